@@ -20,7 +20,15 @@ const VALID: &[&str] = &[
     "@export A = 'a\tb';\n",
     // and these two only in layout outside literals (same code, different text)
     "@export   A='a b'  ;",
+    // pairs that differ only in the line-end convention - inside a literal (different languages) and outside
+    "@export A = 'a\r\nb';\r\n",
+    "@export A = 'a\nb';\n",
+    "@export A = 'a';\r\n# c\r\n",
+    "@export A = 'a';\n# c\n",
 ];
+/// grammar files that are not valid UTF-8 (reading them must fail): bad bytes in a comment, in a literal, UTF-16
+const INVALID_BYTES: &[&[u8]] = &[b"# caf\xe9 rule\n@export\nB = 'b';\n", b"@export A = 'a\xff';\n", b"\xff\xfe@\x00e\x00x\x00"];
+const NOT_UTF8_MARK: &str = "\u{1}<not valid UTF-8>";
 const INVALID: &[&str] = &["@export A = 'a'", "@export A = ;;", "@export A = @:B;\nB = 'b';\n", "@export A = !(x:B);\nB = 'b';\n", "Whitespace = ' ';\n", ""];
 /// prefixes: several are prefixes of each other; the last one is rewritten by rustfmt
 const PREFIXES: &[&str] = &[
@@ -49,6 +57,9 @@ pub enum Op {
 
 #[derive(Debug, Clone, Serialize, Deserialize)]
 pub struct History {
+    /// directory mode with `src/sub` being a symbolic link to a directory outside `src`
+    #[serde(default)]
+    pub symlinked_subdir: bool,
     pub directory: bool,
     pub explicit_dest: bool,
     pub format: bool,
@@ -62,6 +73,7 @@ pub fn build(bytes: &[u8]) -> History {
     let nfiles = if directory { src.range(1, 3) } else { 1 };
     let explicit_dest = !directory && src.chance(128);
     let format = src.chance(50);
+    let symlinked_subdir = directory && nfiles >= 2 && src.chance(64);
     let n = src.range(2, 24);
     let mut ops = vec![Op::EditValid(0, src.pick(VALID.len()))];
     for i in 1..nfiles {
@@ -83,7 +95,7 @@ pub fn build(bytes: &[u8]) -> History {
                 last_valid[f] = k;
                 Op::EditValid(f, k)
             }
-            2 => Op::EditInvalid(f, src.pick(INVALID.len())),
+            2 => Op::EditInvalid(f, src.pick(INVALID.len() + INVALID_BYTES.len())),
             3 => Op::EditSame(f),
             4 => Op::SetPrefix(src.pick(PREFIXES.len())),
             5 => Op::DeleteDestination(f),
@@ -91,7 +103,7 @@ pub fn build(bytes: &[u8]) -> History {
         });
     }
     ops.push(Op::Run);
-    History { directory, explicit_dest, format, nfiles, ops }
+    History { symlinked_subdir, directory, explicit_dest, format, nfiles, ops }
 }
 
 fn lib_code(text: &str) -> Option<String> {
@@ -156,6 +168,11 @@ fn mtime(p: &Path) -> Option<std::time::SystemTime> {
 
 pub fn execute(h: &History, root: &Path) -> Result<(bool, u64), Failure> {
     let _ = std::fs::remove_dir_all(root);
+    if h.symlinked_subdir {
+        std::fs::create_dir_all(root.join("src")).unwrap();
+        std::fs::create_dir_all(root.join("linked_sub/deep")).unwrap();
+        std::os::unix::fs::symlink(root.join("linked_sub"), root.join("src/sub")).unwrap();
+    }
     std::fs::create_dir_all(root.join("src/sub/deep")).unwrap();
     let scratch = root.join("scratch");
     std::fs::create_dir_all(&scratch).unwrap();
@@ -185,8 +202,13 @@ pub fn execute(h: &History, root: &Path) -> Result<(bool, u64), Failure> {
             }
             Op::EditInvalid(f, k) => {
                 let f = &mut files[*f % h.nfiles];
-                std::fs::write(&f.grammar, INVALID[*k]).unwrap();
-                f.text = Some(INVALID[*k].to_string());
+                if *k < INVALID.len() {
+                    std::fs::write(&f.grammar, INVALID[*k]).unwrap();
+                    f.text = Some(INVALID[*k].to_string());
+                } else {
+                    std::fs::write(&f.grammar, INVALID_BYTES[(*k - INVALID.len()) % INVALID_BYTES.len()]).unwrap();
+                    f.text = Some(NOT_UTF8_MARK.to_string());
+                }
                 if had_success {
                     edited_after_success = true;
                 }
@@ -194,7 +216,9 @@ pub fn execute(h: &History, root: &Path) -> Result<(bool, u64), Failure> {
             Op::EditSame(f) => {
                 let f = &mut files[*f % h.nfiles];
                 if let Some(t) = &f.text {
-                    std::fs::write(&f.grammar, t).unwrap();
+                    if t != NOT_UTF8_MARK {
+                        std::fs::write(&f.grammar, t).unwrap();
+                    }
                 }
             }
             Op::SetPrefix(k) => {
@@ -334,6 +358,15 @@ pub fn run(seed: u64, cases: u32, out: &str, workdir: &str) {
                 }
                 if h.explicit_dest {
                     classes.push("explicit_destination");
+                }
+                if h.symlinked_subdir {
+                    classes.push("symlinked_subdirectory");
+                }
+                if h.ops.iter().any(|o| matches!(o, Op::EditInvalid(_, k) if *k >= INVALID.len())) {
+                    classes.push("non_utf8_grammar_file");
+                }
+                if h.ops.iter().any(|o| matches!(o, Op::EditValid(_, k) if *k >= 10)) {
+                    classes.push("line_end_variants");
                 }
                 if nt {
                     classes.push("run_after_edit_following_success");
